@@ -362,6 +362,36 @@ def layout_span_bracket(F, fn):
     return n, bad
 
 
+def layout_position_bracket(F, fn):
+    """Every path of `fn` that runs the layout parser on the content context and then does NOT take layout (no
+    set_layout_ahead afterwards: the layout parser failed or found nothing) puts the context's position back: some
+    set_position after the call is given the value a position() call returned BEFORE it (same receiver epoch). Otherwise
+    what the layout parser consumed before it failed is skipped and the error is reported behind it. Returns
+    (paths through the layout parser without layout, [(reason, path end)])."""
+    n, bad = 0, []
+    for p in Sim(fn, F, max_paths=100000).run():
+        i_lp = idx(p, "parse_with_context")
+        if i_lp is None:
+            continue
+        ctx = p.events[i_lp][2][1] if len(p.events[i_lp][2]) > 1 else None
+        after = p.events[i_lp + 1:]
+        if any(e[0] == "call" and mir.call_matches(e[1], "Context::set_layout_ahead") and e[2] and idiom_same(e[2][0], ctx)
+               and not (len(e[2]) > 1 and mir.contains(e[2][1], lambda x: isinstance(x, tuple) and x[:2] == ("agg", "None")))
+               for e in after):
+            continue
+        n += 1
+        reads = [e[5] for e in p.events[:i_lp] if e[0] == "call" and len(e) > 5 and mir.call_matches(e[1], "Context::position")
+                 and e[2] and idiom_same(e[2][0], ctx)]
+        sets = [e for e in after if e[0] == "call" and mir.call_matches(e[1], "Context::set_position")
+                and e[2] and idiom_same(e[2][0], ctx)]
+        if not sets:
+            bad.append(("the position the layout parser reached before it failed stays in the context", p.end))
+        elif not any(s[2][1] == r for s in sets for r in reads):
+            bad.append(("set_position after the layout parser is given %s, not the position read before the layout parser ran"
+                        % fmt(sets[0][2][1])[:60], p.end))
+    return n, bad
+
+
 def idiom_same(a, b):
     from . import idiom
     return a is not None and b is not None and idiom.same(a, b)
